@@ -441,7 +441,19 @@ func inDomain(c frcase) bool {
 func frontMonitor(c frcase, o frobs) []core.Violation {
 	var vs []core.Violation
 	bad := func(sig, what string) {
-		vs = append(vs, core.Violation{Property: "C04", Signature: "front/" + sig, What: what, Case: c})
+		prop := "C04"
+		switch sig {
+		case "partition-key":
+			prop = "C06"
+		case "filtered-change-forwarded", "forwarded-change-missing":
+			prop = "C08"
+		}
+		vs = append(vs, core.Violation{Property: prop, Signature: "front/" + sig, What: what, Case: c})
+		if prop == "C08" {
+			// a forwarded change that should have been removed / a removed one that should have been forwarded
+			// is also C04's "every change that passes the filter reaches the sink, no other does"
+			vs = append(vs, core.Violation{Property: "C04", Signature: "front/" + sig, What: what, Case: c})
+		}
 	}
 	passthrough := !c.Whitelist && len(c.Tablelist) == 0
 	var want []int
